@@ -679,3 +679,23 @@ S("C10", "buffer-length-in-items", "C11-R6")
 S("C11", "rewind-forgets-position", "C11-R4")
 S("C12", "chunk-left-zero-not-none", "C13-R9")
 S("C13", "gzip-tolerant-too-early", "C13-R4")
+# round 2
+S("C01", "catcher-closes-conn-or-response", "C01-R6")
+S("C02", "drain-skips-empty-body", "C01-R7")
+S("C04", "status-budget-only-forcelist", "C04-R9")
+S("C15", "target-form-by-parsed-host", "C15-R7")
+S("C16", "extend-shares-source-lists", "C16-R2")
+S("C17", "lookup-outside-lock", "C17-R6")
+S("C20", "trailing-lf-fast-path", "C20-R2")
+M("C20", "escape-fast-path-anchored-Z", "fields.py",
+  "    value = value.translate({10: \"%0A\", 13: \"%0D\", 34: \"%22\"})",
+  "    import re as _re\n    if not _re.compile(r'[^\"\\r\\n]*\\Z').match(value):\n        value = value.translate({10: \"%0A\", 13: \"%0D\", 34: \"%22\"})", rule=None, benign=True)
+M("C20", "escape-fast-path-fullmatch", "fields.py",
+  "    value = value.translate({10: \"%0A\", 13: \"%0D\", 34: \"%22\"})",
+  "    import re as _re\n    if _re.fullmatch(r'[^\"\\r\\n]*', value) is None:\n        value = value.translate({10: \"%0A\", 13: \"%0D\", 34: \"%22\"})", rule=None, benign=True)
+M("C20", "escape-fast-path-dollar", "fields.py",
+  "    value = value.translate({10: \"%0A\", 13: \"%0D\", 34: \"%22\"})",
+  "    import re as _re\n    if not _re.match(r'[^\"\\r\\n]*$', value):\n        value = value.translate({10: \"%0A\", 13: \"%0D\", 34: \"%22\"})", rule="C20-R2")
+M("C01", "drain-fast-path-when-already-released", "response.py",
+  "        try:\n            self.read()\n        except (HTTPError, OSError, BaseSSLError, HTTPException):\n            pass",
+  "        if self._connection is None:\n            return\n        try:\n            self.read()\n        except (HTTPError, OSError, BaseSSLError, HTTPException):\n            pass", rule=None, benign=True)
